@@ -19,7 +19,7 @@ func init() {
 			"Oracle: math/big exact arithmetic and correctly rounded IEEE results. Non-trivial: both operands non-zero; distinct by (operator, operands, representations)",
 		Run:          runC13,
 		Replay:       replayC13,
-		MinExercised: map[string]int64{"int_exact": 5000, "float_ieee": 5000, "divzero": 500, "exists-mode": 5000, "operand-chain": 2000, "singleton": 100, "unary.map": 200, "unary.nonnumeric": 100, "identity.commute": 3000, "identity.dneg": 100},
+		MinExercised: map[string]int64{"int_exact": 5000, "float_ieee": 5000, "divzero": 500, "after-failure": 2000, "exists-mode": 5000, "operand-chain": 2000, "singleton": 100, "unary.map": 200, "unary.nonnumeric": 100, "identity.commute": 3000, "identity.dneg": 100},
 		Assumptions: []string{
 			"integer operand = integer representation (int64, or a json.Number that parses as int64); integer quotients may be truncated or exact",
 			"for mixed integer/double operands both 'round operands then operate' and 'operate exactly then round' are accepted",
@@ -284,6 +284,33 @@ func checkArith(c *h.Ctx, op string, l, r operand) {
 		c.Violate("exists-mode", h.F("op", op, "query", o.Class, "exists", e.Class), fmt.Sprintf("Query(%s) returned %s but Exists returned %s", ptxt, o.Summary(), e.Summary()), cs)
 	default:
 		c.Held("exists-mode")
+	}
+	// an operation that fails (out of range, division by zero) fails whatever
+	// is written after it: steps after the parenthesised expression never get
+	// an item, nor does an operator or a filter around it
+	if o.Class == h.Soft {
+		for fi, form := range []string{"(%s).abs()", "(%s).floor()", "(%s).ceiling()", "(%s).string()", "(%s).type()", "(%s)[0]", "(%s)[*]", "(%s) ? (@ > 1)", "-(%s)", "(%s).abs().type()", "(%s) ? (@ > 1 || @ <= 1)", "(%s)[0 to last].size()"} {
+			ftxt := fmt.Sprintf(form, ptxt)
+			fp := cachedPath(ftxt)
+			if fp == nil {
+				continue
+			}
+			entry := []string{"query", "first", "exists"}[fi%3]
+			for _, en := range []string{"query", entry} {
+				fo := h.Call(en, fp, doc, h.Opts{})
+				c.Eval(1)
+				fcs := cs
+				fcs.Path, fcs.Entry = ftxt, en
+				switch {
+				case fo.Class == h.Panic || fo.Class == h.Invalid:
+					c.Skip("after-failure", "panic-or-invalid-is-C05")
+				case fo.Class != h.Soft:
+					c.Violate("after-failure", h.F("op", op, "form", form, "entry", en, "got", fo.Class), fmt.Sprintf("%s(%s) fails with %s, but %s(%s) returned %s", "query", ptxt, o.ErrText(), en, ftxt, fo.Summary()), fcs)
+				default:
+					c.Held("after-failure")
+				}
+			}
+		}
 	}
 }
 
@@ -918,28 +945,37 @@ func runC13(c *h.Ctx) {
 	{
 		k := 0
 		for _, d := range []string{`[5,-1]`, `[-1,5]`, `[5,7]`, `[-1,-2]`, `[5,-1,-2]`, `[-2,5,-1]`} {
-			for _, opnd := range []string{"$[0 to 1] ? (@ > 0)", "$[0,1] ? (@ > 0)", "$[0 to last] ? (@ > 0)", "$[last,0] ? (@ > 0)", "$[*] ? (@ > 0)", "$[0,1].double() ? (@ > 0)"} {
+			type fopnd struct {
+				text string
+				ix   []int // the elements it reads, as written (nil: all; -1: the last)
+				all  bool  // no filter: every element read gets through
+			}
+			for _, fo := range []fopnd{{"$[0 to 1] ? (@ > 0)", []int{0, 1}, false}, {"$[0,1] ? (@ > 0)", []int{0, 1}, false}, {"$[0 to last] ? (@ > 0)", nil, false}, {"$[last,0] ? (@ > 0)", []int{-1, 0}, false}, {"$[*] ? (@ > 0)", nil, false}, {"$[0,1].double() ? (@ > 0)", []int{0, 1}, false},
+				// ... with arithmetic of its own in the condition or in a subscript,
+				// evaluated while the operand's items are being collected
+				{"$[0 to 1] ? (@ * 2 > 0)", []int{0, 1}, false}, {"$[*] ? (@ + 0 > 0)", nil, false}, {"$[0, 0 + 1] ? (@ > 0)", []int{0, 1}, false}, {"$[0, 2 - 1] ? (@ * 1 > 0)", []int{0, 1}, false}, {"$[*] ? (@ > 0 && -@ < 0 && @ / 1 > 0)", nil, false},
+				{"$[0, 0 + 1]", []int{0, 1}, true}, {"$[0 to 2 - 1]", []int{0, 1}, true}, {"$[1 - 1, last * 1]", []int{0, -1}, true}, {"$[0 + 0]", []int{0}, true}, {"$[*] ? (@ * 0 == 0)", nil, true}} {
+				opnd := fo.text
 				for _, mode := range []string{"", "strict "} {
 					k++
 					if !c.Mine(k) {
 						continue
 					}
 					arr := h.Decode(d, false).([]any)
-					// which elements does the operand select? (indices as written)
+					// which elements does the operand select?
 					var sel []float64
-					idx := map[string][]int{"$[0 to 1]": {0, 1}, "$[0,1]": {0, 1}, "$[0 to last]": nil, "$[last,0]": {len(arr) - 1, 0}, "$[*]": nil, "$[0,1].double()": {0, 1}}
-					for pre, ix := range idx {
-						if strings.HasPrefix(opnd, pre+" ") {
-							if ix == nil {
-								for i := range arr {
-									ix = append(ix, i)
-								}
-							}
-							for _, i := range ix {
-								if v := arr[i].(float64); v > 0 {
-									sel = append(sel, v)
-								}
-							}
+					ix := fo.ix
+					if ix == nil {
+						for i := range arr {
+							ix = append(ix, i)
+						}
+					}
+					for _, i := range ix {
+						if i < 0 {
+							i = len(arr) - 1
+						}
+						if v := arr[i].(float64); v > 0 || fo.all {
+							sel = append(sel, v)
 						}
 					}
 					for _, form := range []string{"%s + 1", "1 + %s", "%s * 2", "-(%s)", "(%s) - 1"} {
